@@ -210,3 +210,21 @@ Proof.
   pose proof consts_ok as (_ & HP & _). rewrite Z.mod_small by lia.
   apply Bool.negb_true_iff. lia.
 Qed.
+
+(* ---- sends in arbitrary order, by draw index *)
+Lemma idx_repeat_iff idx : forall prev,
+  has_repeat_from (option_map (fun p => nth_yield p seq_init) prev) (counts_of idx) = idx_repeat_from prev idx.
+Proof.
+  induction idx as [|i r IH]; intros prev; [reflexivity|].
+  cbn [counts_of map has_repeat_from idx_repeat_from]. fold (counts_of r).
+  rewrite <- (IH (Some i)). cbn [option_map]. f_equal.
+  destruct prev as [p|]; cbn [option_map]; [|reflexivity].
+  pose proof (cycle_equal_iff i p seq_init init_inv) as [A B].
+  destruct (nth_yield i seq_init =? nth_yield p seq_init) eqn:E1;
+    destruct ((Z.of_nat i - Z.of_nat p) mod PERIOD =? 0) eqn:E2; try reflexivity.
+  - assert (nth_yield i seq_init = nth_yield p seq_init) by lia. specialize (A H). lia.
+  - assert ((Z.of_nat i - Z.of_nat p) mod PERIOD = 0) by lia. specialize (B H). lia.
+Qed.
+
+Theorem repeat_iff_idx_guard idx : has_repeat (counts_of idx) = idx_guard idx.
+Proof. exact (idx_repeat_iff idx None). Qed.
